@@ -461,6 +461,8 @@ pub mod ast;
 pub mod compiler;
 pub mod error;
 pub mod gc;
+#[cfg(feature = "verif-hooks")]
+pub mod verif_hooks;
 pub(crate) mod interpreter;
 pub mod lexer;
 pub mod parser;
